@@ -74,7 +74,8 @@ export function judge(ctx, c, res) {
   let G
   try { G = evalGroups(res.groups) } catch (e) { viol('generated code does not evaluate: ' + e.message, {}); return }
   const mk = () => makeData(new Rng(c.dataSeed), { small: true })
-  const live = instantiate(ge, G, c.fs.main, mk(), {})
+  const pc = (c.caseSeed & 1) === 1 // `<x-a>` is a real child component in every second case
+  const live = instantiate(ge, G, c.fs.main, mk(), { propComponents: pc })
   if (live.error) { report.count('creation_throws'); return }
   const B = live.tr.B || {}
   const offered = Object.keys(B)
@@ -114,7 +115,7 @@ export function judge(ctx, c, res) {
       report.cell('update_path', viaTree ? 'tree' : 'binding-map', 'n')
       const base = mk()
       for (const [kk, vv] of Object.entries(current)) if (DATA_NAMES.includes(kk) || offered.includes(kk)) base[kk] = vv
-      const fresh = instantiate(ge, G, c.fs.main, base, { keepEvents: false })
+      const fresh = instantiate(ge, G, c.fs.main, base, { keepEvents: false, propComponents: pc })
       report.evals()
       if (fresh.error) { report.count('fresh_creation_throws'); return }
       const a = snap(ge, live.comp, live.tr, {})
